@@ -14,6 +14,7 @@ import (
 	"sort"
 	"strings"
 	"sync"
+	"sync/atomic"
 	"time"
 
 	"github.com/hslam/rpc"
@@ -38,6 +39,7 @@ type fakeRT struct {
 	pings   map[string]int
 	closed  int
 	removed map[string]time.Time // when an address was removed by Update (for C16)
+	jitter  bool                 // pings take 0..300 µs (storm)
 	late    []string
 }
 
@@ -74,6 +76,9 @@ func (f *fakeRT) Go(addr, m string, a, r interface{}, done chan *rpc.Call) *rpc.
 }
 func (f *fakeRT) Call(addr, m string, a, r interface{}) error {
 	f.note(addr)
+	if p, ok := a.(*string); ok {
+		*p = addr // tell the caller where it was sent
+	}
 	return f.result(addr)
 }
 func (f *fakeRT) CallWithContext(ctx context.Context, addr, m string, a, r interface{}) error {
@@ -87,7 +92,15 @@ func (f *fakeRT) NewStream(addr, key string) (rpc.Stream, error) {
 func (f *fakeRT) Ping(addr string) error {
 	f.mu.Lock()
 	f.pings[addr]++
+	j := f.jitter
 	f.mu.Unlock()
+	if j {
+		h := uint32(2166136261)
+		for i := 0; i < len(addr); i++ {
+			h = (h ^ uint32(addr[i])) * 16777619
+		}
+		time.Sleep(time.Duration(h%300) * time.Microsecond)
+	}
 	return f.result(addr)
 }
 func (f *fakeRT) Close() error {
@@ -239,11 +252,98 @@ func (e *routerEnv) observe() string {
 }
 
 type routerResult struct {
-	timing  bool
-	actions []string
-	obs     []string
-	env     *routerEnv
-	notes   []connVerdict
+	stormBad   []string
+	stormCalls int
+	timing     bool
+	actions    []string
+	obs        []string
+	env        *routerEnv
+	notes      []connVerdict
+}
+
+// storm: see the `storm` action. Generation g replaces the whole target list by k fresh addresses.
+// A caller reads the last generation whose Update has RETURNED, then makes a call; the address it
+// was sent to must be of that generation or a newer one. The next Update is issued right after the
+// first call has reached the new generation, i.e. while the detector is still bringing the rest of
+// the generation up (many concurrent check() runs). Returns descriptions of misrouted calls.
+func (e *routerEnv) storm(gens int) ([]string, int) {
+	const k = 32
+	var returned int64 = -1
+	var seen int64 = -1
+	var bad []string
+	var badMu sync.Mutex
+	calls := int64(0)
+	stop := make(chan struct{})
+	var wg sync.WaitGroup
+	genOf := func(addr string) int64 {
+		if !strings.HasPrefix(addr, "g") {
+			return -1
+		}
+		return int64(atoi(strings.SplitN(addr[1:], "-", 2)[0]))
+	}
+	e.rt.mu.Lock()
+	e.rt.jitter = true
+	e.rt.mu.Unlock()
+	for w := 0; w < 4; w++ {
+		wg.Add(1)
+		go func() {
+			defer wg.Done()
+			for {
+				select {
+				case <-stop:
+					return
+				default:
+				}
+				g0 := atomic.LoadInt64(&returned)
+				var addr string // the instrumented RoundTripper stores the address here
+				var r int
+				err := e.c.Call("S.M", &addr, &r)
+				atomic.AddInt64(&calls, 1)
+				if err == nil && addr != "" {
+					g := genOf(addr)
+					if g < g0 {
+						badMu.Lock()
+						if len(bad) < 5 {
+							bad = append(bad, fmt.Sprintf("a call started after Update(generation %d) had returned was sent to %q (generation %d, removed)", g0, addr, g))
+						}
+						badMu.Unlock()
+					}
+					for {
+						old := atomic.LoadInt64(&seen)
+						if g <= old || atomic.CompareAndSwapInt64(&seen, old, g) {
+							break
+						}
+					}
+				}
+				time.Sleep(20 * time.Microsecond)
+			}
+		}()
+	}
+	rnd := prng.New(uint64(gens)*2654435761 + 17)
+	for g := 0; g < gens; g++ {
+		ts := make([]string, k)
+		e.rt.mu.Lock()
+		for h := range ts {
+			ts[h] = fmt.Sprintf("g%d-h%d", g, h)
+			e.rt.up[ts[h]] = true
+		}
+		e.rt.mu.Unlock()
+		e.c.Update(ts...)
+		atomic.StoreInt64(&returned, int64(g))
+		deadline := time.Now().Add(time.Second)
+		for atomic.LoadInt64(&seen) < int64(g) && time.Now().Before(deadline) {
+			time.Sleep(50 * time.Microsecond)
+		}
+		time.Sleep(time.Duration(rnd.Intn(400)) * time.Microsecond)
+	}
+	time.Sleep(250 * time.Millisecond)
+	close(stop)
+	wg.Wait()
+	e.rt.mu.Lock()
+	e.rt.log = nil // the storm's own calls are not part of the observation
+	e.rt.jitter = false
+	e.rt.mu.Unlock()
+	return bad, int(atomic.LoadInt64(&calls))
 }
 
 func runRouterScenario(sc routerScenario) *routerResult {
@@ -328,6 +428,12 @@ func runRouterScenario(sc routerScenario) *routerResult {
 			e.c.Fallback(time.Duration(atoi(f[1])) * time.Millisecond)
 		case "sleep":
 			time.Sleep(time.Duration(atoi(f[1])) * time.Millisecond)
+		case "storm":
+			// storm n: n generations of pairwise disjoint target lists are installed one after the
+			// other while four goroutines keep calling; every call records the generation whose
+			// Update had returned when it started, and the address it was sent to
+			res.timing = true
+			res.stormBad, res.stormCalls = e.storm(atoi(f[1]))
 		case "setlat":
 			e.c.VerifSetLatency(f[1], int64(atoi(f[2])))
 		case "director":
@@ -389,6 +495,7 @@ func checkRouter(sc routerScenario, r *routerResult) []connVerdict {
 	up := map[string]bool{}
 	failSeen := map[string]bool{}
 	waited := map[string]bool{}
+	upWaits := map[string]int{}
 	parked := false
 	for i, a := range r.actions {
 		f := strings.Fields(a)
@@ -406,10 +513,16 @@ func checkRouter(sc routerScenario, r *routerResult) []connVerdict {
 					}
 				}
 			}
+		case "storm":
+			cur = map[string]bool{}
+			for h := 0; h < 32; h++ {
+				cur[fmt.Sprintf("g%d-h%d", atoi(f[1])-1, h)] = true
+			}
 		case "director":
 			director = f[1]
 		case "health":
 			up[f[1]] = f[2] == "1"
+			upWaits[f[1]] = 0
 			if up[f[1]] {
 				delete(failSeen, f[1])
 				delete(waited, f[1])
@@ -418,11 +531,32 @@ func checkRouter(sc routerScenario, r *routerResult) []connVerdict {
 			for x := range failSeen {
 				waited[x] = true
 			}
+			for x := range cur {
+				if up[x] {
+					upWaits[x]++
+				}
+			}
 		case "park":
 			parked = true
 		}
 		if f[0] == "update" {
 			failSeen, waited = map[string]bool{}, map[string]bool{}
+			upWaits = map[string]int{}
+		}
+		// C18: a current target that has been reachable for three detection periods is in use again:
+		// no call may time out for want of a live target
+		if (f[0] == "route" || f[0] == "gos" || f[0] == "rts" || f[0] == "ctxs") && !parked && director == "-" {
+			for x := range cur {
+				if up[x] && upWaits[x] >= 3 {
+					for _, res := range lastResults(obs, len(newSent)) {
+						if res == "timeout" {
+							add("C18", "used-again-after-recovery", "C18/recovered-target-not-used/"+f[0], fmt.Sprintf("%s has been reachable for %d detection periods, yet a call of the %s batch at action %d timed out waiting for a live target", x, upWaits[x], f[0], i))
+							break
+						}
+					}
+					break
+				}
+			}
 		}
 		// C18: a target that refused a connection and has had one detection period stops receiving
 		// calls while another current target is healthy
@@ -531,6 +665,10 @@ func checkRouterTimed(sc routerScenario, r *routerResult) []connVerdict {
 	e := r.env
 	e.mu.Lock()
 	defer e.mu.Unlock()
+	for _, b := range r.stormBad {
+		add("C16", "routes-to-current-targets", "C16/stale-target-after-update/storm", b+fmt.Sprintf(" (%d calls in the storm)", r.stormCalls))
+		break
+	}
 	for _, k := range e.order {
 		c := e.calls[k]
 		if !c.done {
@@ -552,6 +690,9 @@ func routerCorpus() []routerScenario {
 	mk("rr-basic", "rr", "health A 1", "health B 1", "health C 1", "update A,B,C", "wait", "route 7", "gos 4", "rts 3", "pings 2")
 	mk("update-shrinks", "rr", "health A 1", "health B 1", "health C 1", "update A,B,C", "wait", "route 3", "update A,B", "route 2", "wait", "route 4", "update C", "wait", "route 2", "update -", "route 1")
 	mk("dups-and-empty", "rr", "health A 1", "health B 1", "update A,A,,B,", "wait", "route 4")
+	mk("dups-hide-a-removal", "rr", "health A 1", "health B 1", "health C 1", "update A,B,C", "wait", "route 3", "update A,B,B", "wait", "route 4", "update A,B,C", "wait", "update A,,B", "wait", "route 4", "update C,C,C", "wait", "route 2")
+	mk("last-to-die-recovers-first", "rr", "health A 1", "health B 1", "update A,B", "wait", "route 2", "health B 0", "route 4", "wait", "wait", "health A 0", "route 2", "wait", "wait", "health A 1", "wait", "wait", "wait", "route 3", "health B 1", "wait", "wait", "route 4")
+	mk("update-storm", "rr", "storm 60")
 	mk("failover-call", "rr", "health A 1", "health B 1", "update A,B", "wait", "route 2", "health B 0", "route 4", "wait", "route 4", "health B 1", "wait", "wait", "route 4")
 	mk("failover-go", "rr", "health A 1", "health B 1", "update A,B", "wait", "gos 2", "health B 0", "gos 4", "wait", "gos 4", "wait", "gos 4")
 	mk("waiters-released", "rr", "health A 0", "update A", "wait", "park 3 call", "park 2 go", "health A 1", "wait", "settle", "route 1")
